@@ -51,6 +51,10 @@ var c08SubDefects = []string{"sub-foreign-sig", "sub-bad-sig", "sub-missing-dir"
 // text: characters that mean something to a file-name pattern must not mean anything here).
 var c08Decor string
 
+// c08Wide: the root layout of the case being drawn has 3-5 steps, every one of them delegated to
+// sublayouts by 2-3 functionaries (many sublayouts resolved by one layout).
+var c08Wide bool
+
 // c08FileOf names the artifact a step creates. Artifact names appear as patterns in the generated
 // rules, so what the decoration of the step name adds is spelled out harmlessly.
 func c08FileOf(step string) string {
@@ -59,6 +63,10 @@ func c08FileOf(step string) string {
 
 func c08GenLevel(t *rapid.T, depth int, path string, allowSub bool) c08Level {
 	n := rapid.IntRange(1, 2).Draw(t, "nsteps"+path)
+	wide := c08Wide && path == "" && allowSub && depth > 0
+	if wide {
+		n = rapid.IntRange(3, 5).Draw(t, "nwide")
+	}
 	lv := c08Level{Inspection: rapid.Bool().Draw(t, "insp"+path)}
 	subAt := -1
 	if allowSub && depth > 0 {
@@ -71,9 +79,12 @@ func c08GenLevel(t *rapid.T, depth int, path string, allowSub bool) c08Level {
 			name = strings.TrimSuffix(path, ".")
 		}
 		nf := rapid.IntRange(1, 3).Draw(t, "nfunc"+name)
+		if wide && nf < 2 {
+			nf = 2
+		}
 		st := c08Step{Name: name, Threshold: rapid.IntRange(1, nf).Draw(t, "threshold"+name), DefectAt: rapid.IntRange(0, nf-1).Draw(t, "at"+name),
 			Functionaries: rapid.SliceOfNDistinct(rapid.SampledFrom([]string{"ed25519-0", "ed25519-1", "ecdsa-p256-0", "ecdsa-p256-1", "ecdsa-p384-0", "rsa2048-0"}), nf, nf, rapid.ID[string]).Draw(t, "func"+name)}
-		if i == subAt {
+		if i == subAt || wide {
 			sub := c08GenLevel(t, depth-1, name+".", depth-1 > 0 && rapid.Bool().Draw(t, "deeper"+name))
 			st.Sub = &sub
 			st.Plain = nf >= 2 && rapid.IntRange(0, 2).Draw(t, "plain"+name) == 0
@@ -121,7 +132,9 @@ func c08Gen(t *rapid.T) c08Case {
 	c := c08Case{Wrapper: rapid.SampledFrom([]string{"legacy", "dsse"}).Draw(t, "wrapper"), Entry: rapid.SampledFrom([]string{"cwd", "rundir"}).Draw(t, "entry")}
 	depth := rapid.IntRange(1, 2).Draw(t, "depth")
 	c08Decor = rapid.SampledFrom([]string{"", "", "", "[x86]", "\\q", " (2)", "[", "*"}).Draw(t, "namedecor")
+	c08Wide = rapid.IntRange(0, 7).Draw(t, "wide") == 0
 	c.Root = c08GenLevel(t, depth, "", true)
+	c08Wide = false
 	c.Evil = rapid.IntRange(0, 2).Draw(t, "evil") == 0
 	c.CertSub = c.Wrapper == "legacy" && rapid.IntRange(0, 2).Draw(t, "certsub") == 0
 	c.LinkDirRel = rapid.IntRange(0, 2).Draw(t, "linkdirrel") == 0
